@@ -53,8 +53,8 @@ fn process_part(res: &mut PartResult, racers: usize) {
     // each of them emits once and must reach the installed recorder ("every later emission on any thread without a local
     // recorder"). 0: emitted outside any scope before (looked the empty cell up); 1: inside with_local_recorder during the
     // installation; 2: holds a set_default_local_recorder guard across it; 3: entered and left a local scope before it;
-    // 4: did nothing before.
-    const BYSTANDERS: usize = 5;
+    // 4: did nothing before; 5: left a local scope by a (caught) panic before it; 6: does so after it.
+    const BYSTANDERS: usize = 7;
     let local_hits: Arc<Vec<AtomicUsize>> = Arc::new((0..1).map(|_| AtomicUsize::new(0)).collect());
     let local_drops: Arc<Vec<AtomicUsize>> = Arc::new((0..1).map(|_| AtomicUsize::new(0)).collect());
     let ready = Arc::new(std::sync::Barrier::new(BYSTANDERS + 1));
@@ -87,6 +87,25 @@ fn process_part(res: &mut PartResult, racers: usize) {
                         metrics::with_local_recorder(local, || metrics::counter!("by_local").increment(1));
                         ready.wait();
                         installed.wait();
+                    }
+                    5 => {
+                        let _ = std::panic::catch_unwind(std::panic::AssertUnwindSafe(|| {
+                            metrics::with_local_recorder(local, || {
+                                metrics::counter!("by_local").increment(1);
+                                std::panic::resume_unwind(Box::new("scope left by a panic"));
+                            })
+                        }));
+                        ready.wait();
+                        installed.wait();
+                    }
+                    6 => {
+                        ready.wait();
+                        installed.wait();
+                        let _ = std::panic::catch_unwind(std::panic::AssertUnwindSafe(|| {
+                            let _g = metrics::set_default_local_recorder(local);
+                            metrics::counter!("by_local").increment(1);
+                            std::panic::resume_unwind(Box::new("guard dropped by a panic"));
+                        }));
                     }
                     _ => {
                         ready.wait();
@@ -147,8 +166,8 @@ fn process_part(res: &mut PartResult, racers: usize) {
         res.violation("emission-lost-after-install", format!("{} of {} threads that were busy with local scopes / earlier emissions during the installation reached the installed recorder with the emission they made afterwards outside any scope", hits[w].load(Ordering::SeqCst), BYSTANDERS), replay);
         return;
     }
-    if local_hits[0].load(Ordering::SeqCst) != 4 {
-        res.violation("local-scope-emission-misrouted", format!("{} of 4 emissions made inside local scopes reached the local recorder", local_hits[0].load(Ordering::SeqCst)), replay);
+    if local_hits[0].load(Ordering::SeqCst) != 6 {
+        res.violation("local-scope-emission-misrouted", format!("{} of 6 emissions made inside local scopes reached the local recorder", local_hits[0].load(Ordering::SeqCst)), replay);
         return;
     }
     let t = std::thread::spawn(|| {
@@ -206,7 +225,7 @@ fn main() {
     driver::main(CheckDef {
         prop: "C02",
         level: "model_checking",
-        rule: "loom explores every execution (C11 memory model incl. acquire/release and UnsafeCell access ordering) of N installers racing set() with readers doing try_load()+dispatch on a fresh RecorderOnceCell compiled from /repo/metrics/src/recorder/cell.rs, up to the stated preemption bound (none = unbounded); plus one history per run on the real process-global cell (2 / 4 racing installers; five bystander threads that emitted before, sit inside with_local_recorder, hold a local-recorder guard, have left a local scope, or did nothing when the installation happens, and afterwards emit outside any scope: all must reach the installed recorder); distinct = distinct (winner, reader observation) outcomes",
+        rule: "loom explores every execution (C11 memory model incl. acquire/release and UnsafeCell access ordering) of N installers racing set() with readers doing try_load()+dispatch on a fresh RecorderOnceCell compiled from /repo/metrics/src/recorder/cell.rs, up to the stated preemption bound (none = unbounded); plus one history per run on the real process-global cell (2 / 4 racing installers; seven bystander threads that emitted before, sit inside with_local_recorder, hold a local-recorder guard, have left a local scope (normally or by a caught panic, before or after), or did nothing when the installation happens, and afterwards emit outside any scope: all must reach the installed recorder); distinct = distinct (winner, reader observation) outcomes",
         assumptions: &["loom's model of the C11 memory model", "the path-included cell.rs is the file the metrics crate compiles (same source file, loom types substituted by the cfg(metrics_verif_loom) import twin)", "set_global_recorder/with_recorder wrap the cell without further synchronisation (checked by the process-level part)"],
         parts,
         run,
